@@ -45,6 +45,8 @@ ASSUMPTIONS = [
     "an entry field may legitimately be null, keep an older value of the same aircraft, or be cleared: only non-null values are traced "
     "back to the aircraft's own records (under the JSON keys that report the same quantity)",
     "the aircraft database is empty (registration/typecode come from the address alone and are compared alone-vs-interleaved only)",
+    "system level: one history per shard is also fed to the unmodified jet1090 executable over loopback and GET /all is compared with the "
+    "records printed on stdout (entry per shown address, count not below the records already printed)",
 ]
 
 
@@ -227,11 +229,25 @@ def worker(args):
     rep.assumptions = ASSUMPTIONS
     rep.extra["mandatory"] = ["kind:df17:bds05", "kind:df17:bds06", "kind:df17:bds08", "kind:df17:bds09", "kind:df17:bds61", "kind:df17:bds62",
                               "kind:df17:bds65", "kind:df18", "kind:df4", "kind:df5", "kind:df0", "kind:df11", "kind:df16", "kind:df20", "kind:df21",
-                              "kind:undecodable", "entries-compared-alone-vs-interleaved"] + ["field-non-null:" + f for f in FIELD_KEYS]
+                              "kind:undecodable", "entries-compared-alone-vs-interleaved", "system:rest-entries"] + ["field-non-null:" + f for f in FIELD_KEYS]
     data = generate(rsmon, tier, seed, shard, nshards)
     lines = [json.loads(l) for l in data.splitlines() if l.strip()]
     log = drive_raw(binary, data)
     check_log(rep, lines, log)
+    # the table as served by the running executable: GET /all against the records printed on stdout
+    import random
+    import sysjet
+    rng = random.Random((seed << 8) ^ shard ^ 0xC12)
+    hist = {}
+    for l in lines:
+        if "reset" in l:
+            cur = l["tag"]["h"] if l["tag"].get("run") == "all" else None
+        elif cur is not None and "frame" in l:
+            hist.setdefault(cur, []).append(l)
+    work = os.path.join(os.path.dirname(os.path.dirname(os.path.dirname(binary))), "tmp", f"sys12_{shard}")
+    pick = [h for h, v in hist.items() if 10 <= len(v) <= 200]
+    for h in rng.sample(pick, min(len(pick), 1 if tier == "quick" else 6)):
+        sysjet.c12_scenario(rep, binary, work, rng, hist[h])
     # replay files name the generator invocation
     for v in rep.violations:
         v["replay"].update({"tier": tier, "seed": seed, "shard": shard, "nshards": nshards})
